@@ -17,7 +17,7 @@ RULE = ("one evaluation = one phone string (token vs independent HMAC-SHA1), one
 ASSUMPTIONS = ["the three token constants are frozen copies of the pinned tree (data/reg_constants.json), not a second origin",
                "text values are valid unicode (no lone surrogates); nothing is sent anywhere (preview mode, audit hook)",
                "hmac/urllib.parse/cryptography are trusted"]
-REQUIRED = ["token_cases", "urlencode_cases", "encrypt_cases", "request_objects", "escaped_values"]
+REQUIRED = ["concurrent_token_rounds", "token_yields", "token_cases", "urlencode_cases", "encrypt_cases", "request_objects", "escaped_values"]
 
 DATA = os.path.join(os.path.dirname(os.path.dirname(os.path.dirname(os.path.abspath(__file__)))), "data")
 SAFE = set("ABCDEFGHIJKLMNOPQRSTUVWXYZabcdefghijklmnopqrstuvwxyz0123456789.")
@@ -263,13 +263,54 @@ def gen_phone(r):
     return "".join(r.choice("+ -()0123456789") for _ in range(r.randint(0, 16)))
 
 
+def concurrent_tokens(acc, seed, sh, rounds):
+    """Tokens for different numbers computed at the same time on the process-wide environment object (two registrations, or a
+    registration next to a running stack): each caller must get the token of its own number."""
+    import random
+    import threading
+    from vf import inject
+    from yowsup.env import YowsupEnv
+    envo = YowsupEnv.getCurrent()
+    for rd in range(rounds):
+        r = gen.rng(seed, ID, "ctok/%d/%d" % (sh, rd))
+        k = r.choice([2, 3, 4])
+        phones = [[gen_phone(r) for _ in range(30)] for _ in range(k)]
+        wrong, raised = [], []
+
+        def body(mine):
+            for ph in mine:
+                try:
+                    got = envo.getToken(ph)
+                except Exception as e:  # noqa
+                    raised.append((ph, type(e).__name__, str(e)[:100]))
+                    return
+                if got != ref_token(ph):
+                    wrong.append(ph)
+        yi = inject.YieldInjector(random.Random(r.randrange(1 << 30)), ("yowsup/env/env_android.py", "yowsup/env/env.py"), p=r.choice([0.1, 0.3, 0.6]))
+        ths = [threading.Thread(target=body, args=(phones[i],), name="verif-token-%d" % i) for i in range(k)]
+        with yi:
+            for t in ths:
+                t.start()
+            for t in ths:
+                t.join(60)
+        acc.count("concurrent_token_rounds")
+        acc.count("concurrent_tokens", 30 * k)
+        acc.count("token_yields", yi.yields)
+        acc.case(["ctok", sh, rd], nontrivial=yi.yields > 0)
+        if raised:
+            acc.violation("token-concurrent-raises:%s" % raised[0][1], "getToken(%r) raised %s while other threads computed tokens" % (raised[0][0], raised[0][2]), {"op": "ctok", "shard": sh, "round": rd})
+        elif wrong:
+            acc.violation("token-concurrent-differs", "%d of %d tokens computed concurrently by %d threads belong to another number (e.g. %r)" % (len(wrong), 30 * k, k, wrong[0]),
+                          {"op": "ctok", "shard": sh, "round": rd, "threads": k})
+
+
 def shards(tier, seed, nworkers):
     n = 4 if tier == "quick" else nworkers
     tok = 40000 if tier == "quick" else 400000
     url = 80000 if tier == "quick" else 800000
     encn = 2000 if tier == "quick" else 12000
     reqn = 240 if tier == "quick" else 1500
-    return [{"kind": "mix", "shard": i, "tok": tok // n, "url": url // n, "enc": encn // n, "req": reqn // n} for i in range(n)]
+    return [{"kind": "mix", "shard": i, "tok": tok // n, "url": url // n, "enc": encn // n, "req": reqn // n, "ctok": 6 if tier == "quick" else 120} for i in range(n)]
 
 
 def run(spec, acc):
@@ -317,6 +358,7 @@ def run(spec, acc):
         params = [(gen.s_from(r, gen.ALNUM + "_", r.randint(1, 10)), gen_value(r)) for _ in range(r.randint(0, 14))]
         check_encrypt(acc, W, r, params, "enc/%d/%d" % (sh, i), eph)
     acc.count("distinct_ephemeral_keys", len(eph))
+    concurrent_tokens(acc, seed, sh, spec.get("ctok", 6))
     check_request_objects(acc, "%s/%d" % (seed, sh), spec["req"])
 
 
